@@ -355,6 +355,13 @@ func SimpleOperand(in any) bool {
 //@   ensures[value-text-nonempty] err == nil && (IsStringVal(in) || IsColumnVal(in) || IsPlainNumber(in) || IsBoundaryVal(in)) ==> s != ""
 //@   loop 0: rangeinv true
 
+// IsListVal / ListOf: a holds a list of expressions.
+func IsListVal(a any) bool { _, ok := a.([]*expr.Expression); return ok }
+func ListOf(a any) []*expr.Expression {
+	l, _ := a.([]*expr.Expression)
+	return l
+}
+
 // IsPlainNumber: an int or a float64 (the numbers the parser and the decoder produce).
 func IsPlainNumber(a any) bool {
 	switch a.(type) {
@@ -422,11 +429,49 @@ func OneStringParam(params []any, v string) bool {
 	return ok && s == v
 }
 
+// IsRegexpPattern: the pattern text is a /.../ regular expression.
+func IsRegexpPattern(p string) bool { return len(p) >= 2 && p[0] == '/' && p[len(p)-1] == '/' }
+
+// PatternParam: the parameter a pattern travels as - regular expressions as written,
+// wildcard patterns with * -> % and ? -> _.
+func PatternParam(p string) string {
+	if IsRegexpPattern(p) {
+		return p
+	}
+	return Translate(p)
+}
+
+// IsRegexpParam: the single parameter of a pattern match is a regular expression.
+func IsRegexpParam(params []any) bool {
+	return len(params) == 1 && IsStringVal(params[0]) && IsRegexpPattern(StringOf(params[0]))
+}
+
+// LikeParamText: a regular expression is matched with ~, a wildcard pattern with SIMILAR TO.
+func LikeParamText(left, right string, regexp bool) string {
+	if regexp {
+		return left + " ~ " + right
+	}
+	return left + " SIMILAR TO " + right
+}
+
+// SerializeParamsParams: the parameters serializeParams collects for a value.
+func SerializeParamsParams(b Base, in any) []any {
+	_, p, _ := b.serializeParams(in)
+	return p
+}
+
+// SerializeParamsText: the text serializeParams writes for a value.
+func SerializeParamsText(b Base, in any) string {
+	s, _, _ := b.serializeParams(in)
+	return s
+}
+
 //@ func likeParam
 //@   props C04 C13 C01
 //@   functional
 //@   requires len(params) == 1 ==> IsStringVal(params[0])
 //@   ensures  result1 == nil
+//@   ensures[text] result0 == LikeParamText(left, right, IsRegexpParam(params))
 
 //@ func rangParam
 //@   props C04 C13 C01
@@ -448,6 +493,8 @@ func OneStringParam(params []any, v string) bool {
 //@   ensures[no-partial-sql] Builtin(b) && err != nil ==> s == ""
 //@   ensures[string-leaf-is-one-param] err == nil && e != nil && expr.LeafOp(e.Op) && e.Right == nil && IsStringVal(e.Left) ==> OneStringParam(params, StringOf(e.Left))
 //@   ensures[errors-propagate] e != nil ==> ParamStepErr(b, e, err)
+//@   ensures[pattern-parameter-translated] err == nil && e != nil && e.Op == expr.Like ==> len(params) >= 1 && IsStringVal(params[len(params)-1]) && StringOf(params[len(params)-1]) == PatternParam(LeafString(e.Right))
+//@   ensures[x-pattern-match-text] err == nil && e != nil && e.Op == expr.Like ==> s == LikeParamText(Wrap(b, e.Left, SerializeParamsText(b, e.Left)), Wrap(b, e.Right, SerializeParamsText(b, e.Right)), IsRegexpPattern(LeafString(e.Right)))
 
 //@ func (Base).serializeBoundParam
 //@   props C04 C13 C01
@@ -458,6 +505,8 @@ func OneStringParam(params []any, v string) bool {
 //@   requires RenderOK(in) && RangAt(b)
 //@   ensures[no-partial-sql] Builtin(b) && err != nil ==> s == ""
 //@   ensures[bound-errors] err == nil ==> IsOpenEnd(in) || SerializeParamsErr(b, in) == nil
+//@   ensures[open-end-inline] IsOpenEnd(in) ==> err == nil && s == "'*'" && len(params) == 0
+//@   ensures[x-every-other-bound-is-a-value] !IsOpenEnd(in) ==> s == SerializeParamsText(b, in) && verifspec.Same(params, SerializeParamsParams(b, in)) && (err == nil) == (SerializeParamsErr(b, in) == nil)
 
 //@ func (Base).serializeParams
 //@   props C04 C10 C13 C15 C01 C08
